@@ -164,6 +164,14 @@ type FoldT struct{ A int }
 
 func (f FoldT) Fold(v structform.ExtVisitor) error { return v.OnString(fmt.Sprintf("F%d", f.A)) }
 
+// FoldSl / FoldMp: NAMED slice and map types that implement Folder by value (their underlying types have
+// fast paths of their own): fold as the strings "L<len>" / "M<len>".
+type FoldSl []string
+type FoldMp map[string]int
+
+func (f FoldSl) Fold(v structform.ExtVisitor) error { return v.OnString(fmt.Sprintf("L%d", len(f))) }
+func (f FoldMp) Fold(v structform.ExtVisitor) error { return v.OnString(fmt.Sprintf("M%d", len(f))) }
+
 // FoldObj implements Folder by value and emits an object.
 type FoldObj struct{ A int }
 
@@ -217,6 +225,7 @@ var namedTypes = map[string]reflect.Type{
 	"MySlice": reflect.TypeOf(MySlice(nil)), "MyMap": reflect.TypeOf(MyMap(nil)),
 	"ZeroT": reflect.TypeOf(ZeroT{}), "ZeroP": reflect.TypeOf(ZeroP{}),
 	"FoldT": reflect.TypeOf(FoldT{}), "FoldObj": reflect.TypeOf(FoldObj{}),
+	"FoldSl": reflect.TypeOf(FoldSl(nil)), "FoldMp": reflect.TypeOf(FoldMp(nil)),
 	"chan": reflect.TypeOf(make(chan int)), "func": reflect.TypeOf(func() {}), "complex128": reflect.TypeOf(complex128(0)),
 	"uintptr": reflect.TypeOf(uintptr(0)), "mapintstr": reflect.TypeOf(map[int]string(nil)),
 }
@@ -228,6 +237,8 @@ var namedUnder = map[string]TD{
 	"ZeroT":   {K: "struct", F: []FD{{Name: "A", T: TD{K: "int"}}}},
 	"ZeroP":   {K: "struct", F: []FD{{Name: "A", T: TD{K: "int"}}}},
 	"FoldT":   {K: "struct", F: []FD{{Name: "A", T: TD{K: "int"}}}},
+	"FoldSl":  {K: "slice", E: []TD{{K: "string"}}},
+	"FoldMp":  {K: "map", E: []TD{{K: "int"}}},
 	"FoldObj": {K: "struct", F: []FD{{Name: "A", T: TD{K: "int"}}}},
 	"RegT":    {K: "struct", F: []FD{{Name: "A", T: TD{K: "int"}}}},
 	"RegObj":  {K: "struct", F: []FD{{Name: "A", T: TD{K: "int"}}}},
